@@ -185,7 +185,8 @@ pub fn run(ctx: &Ctx, st: &mut Stats) {
             v.push((2f64).powi(k));
             v.push(-(2f64).powi(k));
         }
-        for d in [3.0, 7.0, 9.0, 11.0, 13.0, 49.0, 98.0, 103.0, 107.0, 161.0, 187.0, 1e3, 1e6, 86_400.0, 1e-3, 1e-6, 0.3, 0.7, 1.1, 1e22, 1e-22, 1e100, 1e-100, 8.4e298, 1e308, 1.7e308, 2.2e-308, 1e-320] {
+        for d in [2_147_483_647.0, 2_147_483_648.0, 2_147_483_649.0, 3e9, 4e9, 4_294_967_295.0, 4_294_967_296.0, 4_294_967_297.0, 1e10, 1e12, 123_456_789_012.0, 9.007_199_254_740_992e15,
+                  3.0, 7.0, 9.0, 11.0, 13.0, 49.0, 98.0, 103.0, 107.0, 161.0, 187.0, 1e3, 1e6, 86_400.0, 1e-3, 1e-6, 0.3, 0.7, 1.1, 1e22, 1e-22, 1e100, 1e-100, 8.4e298, 1e308, 1.7e308, 2.2e-308, 1e-320] {
             v.push(d);
             v.push(-d);
         }
@@ -236,12 +237,72 @@ pub fn run(ctx: &Ctx, st: &mut Stats) {
             st.eval(&C::af(K::DtDiv, x * k, k as f64), both);
             if x < 1_000_000 {
                 st.eval(&C::af(K::YmMul, x, k as f64), both);
-                st.eval(&C::af(K::YmDiv, x * k, k as f64), both);
+                if x * k <= YM_LIM as i64 {
+                    st.eval(&C::af(K::YmDiv, x * k, k as f64), both);
+                }
             }
             if x * k < DAY_US {
                 st.eval(&C::af(K::TmDiv, x * k, k as f64), both);
             }
         }
+    });
+    // results aimed just below / just above a whole number: this is where "truncates toward zero" is decided
+    let na = ctx.tier.pick(300, 1_500_000, 30_000_000);
+    ctx.par(st, "aimed: real result within 2^-50..1e-7 relative of a whole number", false, 0, na, |st, _, rng| {
+        let k = *rng.pick(K::ALL);
+        let is_div = matches!(k, K::YmDiv | K::DtDiv | K::TmDiv);
+        let x = match k {
+            K::YmMul | K::YmDiv => match rng.below(3) {
+                0 => rng.range_i64(1, 200),
+                1 => rng.range_i64(1, 100_000),
+                _ => rng.range_i64(1, YM_LIM as i64),
+            },
+            K::DtMul | K::DtDiv => match rng.below(4) {
+                0 => rng.range_i64(1, 5_000),
+                1 => rng.range_i64(1, 10_000_000),
+                2 => rng.range_i64(1, 400 * DAY_US),
+                _ => rng.range_i64(1, DT_LIM),
+            },
+            _ => rng.range_i64(1, DAY_US - 1),
+        };
+        // target whole result n, relative nudge d
+        let n = match rng.below(3) {
+            0 => rng.range_i64(1, 2_000),
+            1 => rng.range_i64(1, 5_000_000),
+            _ => rng.range_i64(1, 1 << 40),
+        } as f64;
+        let d = *rng.pick(&[0.0, 2.3e-16, 4.5e-16, 1e-15, 1e-14, 1e-13, 5e-13, 1e-12, 1e-11, 1e-10, 1e-9, 1e-8, 1e-7]) * if rng.chance(1, 2) { -1.0 } else { 1.0 };
+        let f = if is_div { (x as f64 / n) * (1.0 + d) } else { (n / x as f64) * (1.0 + d) };
+        let x = if rng.chance(1, 2) && !matches!(k, K::TmMul | K::TmDiv) { -x } else { x };
+        let f = if rng.chance(1, 4) { -f } else { f };
+        let c = C::af(k, x, f);
+        st.eval_h(c.hash(k as u64 + 31), &c, both);
+    });
+    // whole-number multipliers / divisors of every magnitude (integer fast paths, casts)
+    let nw = ctx.tier.pick(300, 1_000_000, 20_000_000);
+    ctx.par(st, "whole-number operands of every magnitude", false, 0, nw, |st, _, rng| {
+        let k = *rng.pick(K::ALL);
+        let bits = rng.below(63) as u32;
+        let mut w = (rng.next() >> (63 - bits)) as f64;
+        if rng.chance(1, 8) {
+            w = *rng.pick(&[(1u64 << 31) as f64, (1u64 << 32) as f64, (1u64 << 31) as f64 + 1.0, (1u64 << 32) as f64 - 1.0, (1u64 << 53) as f64, (1u64 << 63) as f64, 65_536.0, 65_535.0, 16_777_216.0, 16_777_217.0]);
+        }
+        if rng.chance(1, 2) {
+            w = -w;
+        }
+        let x = match k {
+            K::YmMul | K::YmDiv => rng.range_i64(-(YM_LIM as i64), YM_LIM as i64),
+            K::DtMul | K::DtDiv => {
+                if rng.chance(1, 2) {
+                    rng.range_i64(-DT_LIM, DT_LIM)
+                } else {
+                    rng.range_i64(-400 * DAY_US, 400 * DAY_US)
+                }
+            }
+            _ => rng.range_i64(0, DAY_US - 1),
+        };
+        let c = C::af(k, x, w);
+        st.eval_h(c.hash(k as u64 + 57), &c, both);
     });
     let n = ctx.tier.pick(1_000, 3_000_000, 60_000_000);
     ctx.par(st, "random/(interval, float)", false, 0, n, |st, _, rng| {
